@@ -422,6 +422,11 @@ func engineOracles(c *Ctx, ec *eCase, recs []reqRec) {
 		// ---- C06 / C20: while TERMINATE is set nothing runs
 		if prev != nil && pers && flagBit(prev.flags, 6) && !refusedInput(in) && !(ec.roe && len(in) == 0) {
 			ran := len(r.calls) > 0 || r.cont || strings.Join(prev.path, "/") != strings.Join(r.path, "/") || prev.idx != r.idx
+			if r.state != "nostate" && len(r.flags) > 0 && !flagBit(r.flags, 6) {
+				// only client code may lift the block: the stored flag outlives the blocked request
+				c.Fail("C06", "terminate-lifted-by-blocked-request", fmt.Sprintf("%s: TERMINATE was set before the request and is no longer stored after it (flags %x -> %x)", where, prev.flags, r.flags))
+				c.Fail("C20", "terminate-lifted-by-blocked-request", fmt.Sprintf("%s: TERMINATE was set before the request and is no longer stored after it (flags %x -> %x)", where, prev.flags, r.flags))
+			}
 			if ran {
 				// C06: nothing runs, nothing is called, no position changes
 				c.Fail("C06", "terminate-not-blocking", fmt.Sprintf("%s: TERMINATE was set but calls=%d out=%q cont=%v path %v->%v", where, len(r.calls), trunc(string(r.out), 40), r.cont, prev.path, r.path))
@@ -591,6 +596,13 @@ func engineOracles(c *Ctx, ec *eCase, recs []reqRec) {
 				}
 			}
 		}
+		// ---- C04: reset-on-empty-input restarts at the entry node, from wherever the session is (the entry node included)
+		if ec.roe && len(in) == 0 && prev != nil && prev.x == "ok" && r.x == "ok" && prev.cont && ec.wf && !hasFirst && len(prev.path) > 0 &&
+			calmNode(ec, ec.root) && !failedBefore && !dupSeen {
+			if len(r.path) != 1 || r.path[0] != ec.root || r.idx != 0 {
+				c.Fail("C04", "reset-on-empty-input", fmt.Sprintf("%s: empty input with ResetOnEmptyInput at %v idx %d should restart at [%s] idx 0, session is at %v idx %d", where, prev.path, prev.idx, ec.root, r.path, r.idx))
+			}
+		}
 		// ---- C04 / C06: a relative target is resolved by the move table, never fetched from the resource as a node
 		for _, l := range r.lookups {
 			if l.kind == "code" && (l.sym == "_" || l.sym == "^" || l.sym == "." || l.sym == ">" || l.sym == "<") {
@@ -745,8 +757,8 @@ func engineOracles(c *Ctx, ec *eCase, recs []reqRec) {
 				}
 			}
 		}
-		// ---- C06: a handler's TERMINATE request sticks
-		if r.x == "ok" && r.state != "nostate" && !hasFirst {
+		// ---- C06: a handler's TERMINATE request sticks (also with a `first` function: only ITS request is transient)
+		if r.x == "ok" && r.state != "nostate" {
 			for _, cl := range r.calls {
 				all, any := true, false
 				for _, ru := range ec.exts {
